@@ -381,6 +381,10 @@ def run(tier, replay):
         ctx.sample(brief(r["case"]))
     sample = [r for r in res if "ev" in r and not r["mismatch"]]
     lines = [trace_line(r) for r in sample] + [trace_line(r, RANDOM_BASE + r["c"]) for r in rres]
+    # (the accept values are recomputed by TLC at the same time, see 3b)
+    apool = concurrent.futures.ThreadPoolExecutor(max_workers=1)
+    afut = apool.submit(validate_accepts, ctx, "Sec-WebSocket-Accept recomputed by TLC (Sha1, Base64) for %d distinct keys",
+                        [r for r in res if not r["mismatch"]] + rres, 500 if thorough else 170)
     t, rej = validate_traces(ctx, "trace validation: %d replayed + %d random connections" % (len(sample), n), lines)
     ctx.cov["traces_validated_against_impl"] += len(lines) - len(rej)
     ctx.add_part("trace validation", traces=len(lines), rejected=len(rej), random=n, random_distinct=len(rcases),
@@ -395,8 +399,8 @@ def run(tier, replay):
             {"kind": "ws-trace", "case": r["case"] if r else None, "rejected": x, "ev": r["ev"] if r else None})
 
     # ---- 3b. the accept values, recomputed by TLC from the RFC definitions of SHA-1 and Base64
-    alines, arej = validate_accepts(ctx, "Sec-WebSocket-Accept recomputed by TLC (Sha1, Base64) for %d distinct keys",
-                                    [r for r in res if not r["mismatch"]] + rres, 500 if thorough else 200)
+    alines, arej = afut.result()
+    apool.shutdown()
     ctx.add_part("handshake accept values", keys=len(alines), longest_key=max(len(l["kb"]) for l in alines),
                  empty_key=any(not l["kb"] for l in alines), disagree=len(arej))
     for x in arej[:5]:
